@@ -207,7 +207,9 @@ def eighths? (expBits manBits bits : Nat) : Option Nat :=
       if q < 8 * 4096 then some q else none
     else
       let d := 2 ^ (lo - sh)
-      if sig % d == 0 then some (sig / d) else none
+      -- (the bound also here: above it the shortest round-trip form has fewer digits than the exact expansion,
+      -- e.g. 524288.125f prints `524288.1f`)
+      if sig % d == 0 && sig / d < 8 * 4096 then some (sig / d) else none
 
 /-- Rust `Display` of `q/8` when it is not integral -/
 def fracText (q : Nat) : String :=
